@@ -86,6 +86,8 @@ class Check:
         self.violations = []    # (key, text, replay path)
         self.inconclusive = []
         self.pkgwrites = []
+        self.depfails = []      # failed lower-layer contracts (with concrete lower-layer witnesses): need a property-level reproduction
+        self.usage = {}         # summarised function -> receiver patterns its callers use (alias / zero / dirty)
         self.greads = set()     # labels of the package-level objects read by the runs of this check
         self.notes = []
         self.functions = set()
@@ -103,6 +105,45 @@ class Check:
         self.symx_s = 0.0
 
     # ---- bookkeeping of what was encoded ----
+    OWNERS = {'field': ('C12',), 'scalar': ('C06',)}
+
+    def dep_violation(self, layer, key, text, path, witnesses=()):
+        """a concrete violation of a lower-layer contract (internal/field, internal/scalar).  For the check that owns the layer it is a
+        violation of the property; for a check that merely relies on the contract it is recorded, and the property's own replay
+        (with inputs derived from the lower-layer witness) decides whether the property itself is affected"""
+        if self.pid in self.OWNERS.get(layer, ()) or self.pid == 'C10':
+            return self.violation(key, text, path)
+        self.depfails.append({'layer': layer, 'key': key, 'text': text, 'path': path, 'witnesses': [int(w) for w in witnesses]})
+
+    def resolve_deps(self):
+        if not self.depfails or self.violations or getattr(self, '_deps_done', False):
+            return
+        self._deps_done = True
+        from props import fallback
+        d0 = self.depfails[0]
+        wit = [w for d in self.depfails for w in d['witnesses']]
+        cases = fallback.witness_cases(self.pid, d0['layer'], wit, self.seed) + fallback.cases_for(self.pid, self.seed)
+        if self.pid == 'C17':
+            self.inconclusive.append('a lower-layer contract this proof relies on fails (%s); the plain programs are the replay of this property' % d0['text'][:200])
+            return
+        path = self.save_replay({'property': self.pid, 'cases': cases, 'reason': 'lower-layer contract violated: %s' % d0['text'][:300], 'lower_layer_replay': d0['path']})
+        extra = None
+        inst = None
+        if self.pid == 'C19':
+            from . import instr
+            inst, extra, _ = instr.instrument_field()
+        try:
+            ok, out = go_test(path, race=(self.pid == 'C16'), extra_overlay=extra, timeout=900)
+        finally:
+            if inst:
+                from . import instr
+                instr.cleanup(inst)
+        if not ok and 'MISMATCH' in out:
+            self.violation('dep:' + d0['key'], 'a lower-layer defect (%s) reaches this property: %s' % (d0['text'][:160], [l.strip() for l in out.splitlines() if 'MISMATCH' in l][:1]), path)
+        else:
+            self.inconclusive.append('a lower-layer contract this proof relies on is violated (%s; replay %s), but the property-level replay (witness-derived inputs + the property battery) passes'
+                                     % (d0['text'][:200], d0['path']))
+
     def pkgstate(self):
         """Every verdict about a single call from the initial package state extends to call histories only if no call changes
         package-level state: recorded for every encoded path (the per-property handling of such a finding comes first)."""
@@ -166,6 +207,9 @@ class Check:
             self.stubs.update(r.stubs)
             self.zero_globals.update(r.zero_globals)
             self.summaries.update(r.summaries)
+            for u_ in (r.d.get('summary_usage') or []):
+                fn_, pat_ = u_.rsplit('|', 1)
+                self.usage.setdefault(fn_, set()).add(pat_)
             for k, v in r.loops.items():
                 self.loops[k] = max(self.loops.get(k, 0), v)
             self.symx_s = max(self.symx_s, getattr(r, 'secs', 0.0)) if len(runs) > 1 else self.symx_s + getattr(r, 'secs', 0.0)
@@ -252,6 +296,7 @@ class Check:
 
     # ---- finish ----
     def finish(self):
+        self.resolve_deps()
         self.pkgstate()
         known = load_known()
         known_keys = {(k['property'], k['key']): k for k in known if k.get('kind') == 'known'}
